@@ -148,7 +148,13 @@ unsafe impl GlobalAlloc for Guard {
     }
 }
 
+// under Miri (support run of the thorough tier) the interpreter itself checks every access and every
+// allocator call; the guard allocator would only hide the real block boundaries from it
+#[cfg(not(miri))]
 #[global_allocator]
+static GLOBAL: Guard = Guard;
+#[cfg(miri)]
+#[allow(dead_code)]
 static GLOBAL: Guard = Guard;
 
 // ------------------------------------------------------------------------------------------------
@@ -723,7 +729,72 @@ fn do_step(pool: &mut Pool, t: &[&str]) -> Result<usize, &'static str> {
     }
 }
 
+/// `scr la lb`: the scratch memory of the product of an la-word by an lb-word operand through the size dispatch
+/// mul::add_signed_mul.  Answers `ok <reserved> <needed>`: the words mul::memory_requirement_exact reserves and the
+/// smallest number of words with which the kernel still runs (found by bisection with
+/// verif_hooks::mul_kernel_scratch; with fewer words the bump allocator's
+/// `expect("internal error: not enough memory allocated")` fires), `panic ...` when the reserved amount itself fails.
+fn scratch_probe(la: usize, lb: usize) -> String {
+    use dashu_int::verif_hooks::{mul_kernel_scratch, mul_scratch_words};
+    let (la, lb) = if la >= lb { (la, lb) } else { (lb, la) };
+    if lb == 0 || la > 20000 {
+        return "err size".into();
+    }
+    let mut x: u64 = 0x9e37_79b9_7f4a_7c15 ^ ((la as u64) << 32 | lb as u64);
+    let mut next = || {
+        x ^= x << 13;
+        x ^= x >> 7;
+        x ^= x << 17;
+        x as Word
+    };
+    let a: Vec<Word> = (0..la).map(|_| next()).collect();
+    let b: Vec<Word> = (0..lb).map(|_| next()).collect();
+    let reserved = mul_scratch_words(la + lb, la, lb);
+    let works = |k: usize| -> Result<Vec<Word>, String> {
+        let mut c: Vec<Word> = vec![0; la + lb];
+        match catch_unwind(AssertUnwindSafe(|| {
+            let _ = mul_kernel_scratch(&mut c, true, &a, &b, k);
+        })) {
+            Ok(()) => Ok(c),
+            Err(e) => Err(if let Some(s) = e.downcast_ref::<String>() {
+                s.clone()
+            } else if let Some(s) = e.downcast_ref::<&str>() {
+                s.to_string()
+            } else {
+                "?".to_string()
+            }),
+        }
+    };
+    let full = match works(reserved) {
+        Ok(c) => c,
+        Err(msg) => return format!("panic {}", classify_panic(&msg)),
+    };
+    // bisection: works(hi) holds, works(lo - 1) fails (or lo = 0)
+    let (mut lo, mut hi) = (0usize, reserved);
+    while lo < hi {
+        let mid = lo + (hi - lo) / 2;
+        match works(mid) {
+            Ok(c) => {
+                if c != full {
+                    return "err result-depends-on-scratch".into();
+                }
+                hi = mid
+            }
+            Err(msg) => {
+                if !msg.contains("not enough memory allocated") {
+                    return format!("panic {}", classify_panic(&msg));
+                }
+                lo = mid + 1
+            }
+        }
+    }
+    format!("ok {:x} {:x}", reserved, hi)
+}
+
 fn run(op: &str, args: &[&str]) -> String {
+    if op == "scr" {
+        return scratch_probe(usz(args[0]), usz(args[1]));
+    }
     if op != "hist" {
         return "err unknown-op".into();
     }
